@@ -11,6 +11,24 @@ def _p(corpora, level='model_checking', rule='', assumptions=None):
     return {'corpora': corpora, 'level': level, 'rule': rule, 'assumptions': assumptions or MUX_ASSUME}
 
 
+def apalache_frag(ctx):
+    """Unbounded design-level strengthening of C10 (conservation, sequence numbers): the inductive invariant of
+    spec/FragInd.tla is discharged by Apalache (initiation at length 0, consecution at length 1)."""
+    import subprocess, os, shutil
+    from . import core
+    wd = os.path.join(ctx.work, 'apalache_frag')
+    shutil.rmtree(wd, ignore_errors=True)
+    os.makedirs(wd)
+    spec = os.path.join(ctx.spec, 'FragInd.tla')
+    for args in (['--init=Init', '--inv=IndInv', '--length=0'], ['--init=IndInit', '--inv=IndInv', '--length=1']):
+        p = subprocess.run(['timeout', '600', 'apalache-mc', 'check'] + args + [spec], cwd=wd, stdout=subprocess.PIPE, stderr=subprocess.STDOUT, text=True)
+        if 'EXITCODE: OK' not in p.stdout:
+            shutil.rmtree(wd, ignore_errors=True)
+            raise core.ToolError('Apalache did not discharge the inductive invariant of FragInd.tla (%s):\n%s' % (' '.join(args), p.stdout[-1500:]))
+    shutil.rmtree(wd, ignore_errors=True)
+    return []
+
+
 def send_witness(ctx):
     """C17 auto-trait clause: decided by rustc while building the witness binary (not by TLC)."""
     import subprocess, os
@@ -59,9 +77,11 @@ PROPS = {
               rule='a case is a (history, fault schedule) pair: every write-call index x {5 error kinds, Ok(0), Interrupted x1/x3, accept 1, accept n-1, fail-once} and every byte offset of the output as a short-write cut, for representative histories of every layout; non-trivial when the schedule contains a non-full response',
               assumptions=['fault schedules are enumerated for representative histories (listed in coverage.samples), not for all histories', 'the design-level model MuxideSink.tla is checked for files of 6 abstract bytes and buffers of <= 4']),
 
-    'C10': _p(lambda t: ['frag'],
+    'C10': dict(_p(lambda t: ['frag'],
               rule='a case is a write/flush/query/init sequence on a fragmented muxer enumerated by TLC from MCFrag or drawn by the seeded generator; non-trivial when >= 2 segments are emitted',
-              assumptions=['bounded: sequences up to the stated length over the stated dts-step / composition-offset alphabets, plus seeded random runs of up to 100 samples', 'the independent reader resolves trun/tfdt/mfhd faithfully']),
+              assumptions=['bounded: sequences up to the stated length over the stated dts-step / composition-offset alphabets, plus seeded random runs of up to 100 samples', 'the independent reader resolves trun/tfdt/mfhd faithfully',
+                           'additionally, the conservation / sequence-number clauses are proved for histories of any length on the counter abstraction spec/FragInd.tla by an inductive invariant discharged with Apalache (design level)']),
+              pre=apalache_frag, coverage_extra=lambda results: {'apalache_inductive_invariant': {'module': 'FragInd.tla', 'obligations': 2, 'discharged': 2}}),
     'C11': _p(lambda t: ['frag'],
               rule='as C10; non-trivial when >= 2 segments are emitted',
               assumptions=['bounded: sequences up to the stated length over the stated dts-step / composition-offset alphabets, plus seeded random runs of up to 100 samples', 'the constant-cadence clause is judged only when every segment holds >= 2 samples']),
